@@ -200,9 +200,6 @@ func CheckC16(r *Report) {
 			}
 		}
 	}
-	bad := func(a spec.Assignment, why string) {
-		r.Violation(Case{Kind: "nomenclature", Key: "v4.0/Nomenclature/cannot-build", Expected: "object built by Set reads back", Observed: why, Args: map[string]any{"vector": ver.Full(a)}}, nil)
-	}
 	s40 := NewOS(I40, r)
 	bgs := s40.Backgrounds()
 	// (a) presence subsets
@@ -224,7 +221,7 @@ func CheckC16(r *Report) {
 			dims = append(dims, Dim{M: mi, Vals: []int8{int8(nd), int8(k)}})
 		}
 		for _, bg := range bgs[:2] {
-			Iterate(I40, dims, bg, 16, mkfn(dims, bg), bad, r.TooMany)
+			Iterate(I40, dims, bg, 16, mkfn(dims, bg), iterBad(r, I40, dims, bg, "nomenclature"), r.TooMany)
 		}
 	}
 	// (c) every value of every base and supplemental metric x all presence patterns of threat+environmental metrics
@@ -239,7 +236,7 @@ func CheckC16(r *Report) {
 				dims = append(dims, Dim{M: k, Vals: []int8{int8(ver.NDIndex(k)), int8(len(m.Values) - 1)}})
 			}
 		}
-		Iterate(I40, dims, bgs[0], 16, mkfn(dims, bgs[0]), bad, r.TooMany)
+		Iterate(I40, dims, bgs[0], 16, mkfn(dims, bgs[0]), iterBad(r, I40, dims, bgs[0], "nomenclature"), r.TooMany)
 	}
 	r.SetExtra("presence_states", n.Load())
 	// (b) full product of the 15 threat + environmental metrics
@@ -251,7 +248,7 @@ func CheckC16(r *Report) {
 			}
 		}
 		for _, bg := range bgs {
-			Iterate(I40, FullDims(ver, ms), bg, 16, mkfn(FullDims(ver, ms), bg), bad, r.TooMany)
+			Iterate(I40, FullDims(ver, ms), bg, 16, mkfn(FullDims(ver, ms), bg), iterBad(r, I40, FullDims(ver, ms), bg, "nomenclature"), r.TooMany)
 		}
 	} else {
 		// quick: full product of every window of 6 storage-adjacent threat/environmental metrics
@@ -262,7 +259,7 @@ func CheckC16(r *Report) {
 			}
 		}
 		for st := 0; st+6 <= len(ms); st++ {
-			Iterate(I40, FullDims(ver, ms[st:st+6]), bgs[st%3], 16, mkfn(FullDims(ver, ms[st:st+6]), bgs[st%3]), bad, r.TooMany)
+			Iterate(I40, FullDims(ver, ms[st:st+6]), bgs[st%3], 16, mkfn(FullDims(ver, ms[st:st+6]), bgs[st%3]), iterBad(r, I40, FullDims(ver, ms[st:st+6]), bgs[st%3], "nomenclature"), r.TooMany)
 		}
 	}
 	_ = nontriv
